@@ -31,11 +31,22 @@ RULE = ('every labelled digraph on n<=3 nodes (n<=4 thorough, a random slice of 
         '2^-30 scale (model and oracle run on the integer numerators - betweenness is scale invariant). Each graph '
         'is fed to the four routines (binary routines on the 0/1 pattern, weighted routines on the length matrix and on '
         'the 0/1 pattern). non-trivial = at least one ordered pair at distance >= 2 hops (some node lies strictly between '
-        'two others); distinct by hash of (length matrix).')
+        'two others); distinct by hash of (length matrix). Added: lengths that are NOT dyadic rationals (k/10, 0.7, 1/3 ... on the '
+        'same families; layered graphs whose length depends on the layer only, so that tied routes add the same doubles in the '
+        'same order), read on the exact rational values of the doubles and classified by an oracle that replays binary64 route '
+        'sums (ties exact in binary64 -> usual keys + rational-length model; rounding changes the ties -> recorded finding keys); '
+        'oracle-only graphs with n = 12..36 (random sparse/dense, grids to 6x6, rings / trees with chords, unions, isolated nodes, '
+        'layered), layered graphs 11 x 7 (path counts > 2^24 for many pairs), a shuffled path on 129..140 nodes (closed form); the '
+        'same networks as int64 / int32 / int8 / uint8 / bool / float32 arrays; matrices that are not 0/1 through the binary '
+        'routines (against the models only).')
 ASSUMES = ['connection lengths are small positive integers or integers < 2^33 times 2^-20 / 2^-30 (dyadic): every sum / '
            'comparison of lengths and every path count the model treats as exact is exact in binary64; quotients are '
            'compared with tolerance 1e-9',
-           'the weighted routines are given a LENGTH matrix (as documented), 0 = no connection']
+           'the weighted routines are given a LENGTH matrix (as documented), 0 = no connection',
+           'decimal families: the property is read on the lengths as given in binary64 (exact rational values of the doubles); '
+           'where binary64 route sums separate or merge exactly tied routes the routines are KNOWN to return the betweenness of '
+           'the rounded sums (open finding, keys *[rounded-lengths]:tie), recognised by an independent oracle that replays those sums',
+           'path counts stay below 2^53 (graphs whose counts exceed that are not compared)']
 TRUSTED = ['bc_correct for the four routines (model output = BC_spec / EBC_spec) IS a theorem about the Gallina models '
            '(C08_bc_correct); that the models follow the Python code statement by statement is established by the '
            'differential correspondence (sampling), including the per-source search state (Q, q, NP, D, P) of the '
@@ -658,13 +669,24 @@ class Runner:
         # edge_betweenness_bin reads it through `!= 0` (C08_ebc_bin_ignores_weights), betweenness_bin does not binarise
         # (C08_bc_bin_weighted_refuted) - the models must follow the code there too
         if not binary and scale_pow == 0 and ctx.rng.random() < 0.15:
+            def soft(f, fn, casew):
+                # outside the documented domain: an exception / a hang is a model-code disagreement, not a violation of the property
+                try:
+                    with np.errstate(all='ignore'):
+                        x = call(f, L.astype(float), _t=10.0)
+                    tie_variants(casew)
+                    return x
+                except Exception as e:
+                    ctx.mismatch(fn, 'the implementation raised %r on a matrix that is not 0/1 where the model returns' % (e,), casew)
+                    return None
             casew = {'fn': 'betweenness_bin(non-binary matrix)', 'G': L.tolist()}
-            with np.errstate(all='ignore'):
-                bcx = self.impl(bct.betweenness_bin, L, 'betweenness_bin(non-binary)', casew)
-            self.lines.append('bc_bin ' + enc_mat(L.tolist())); self.pend.append(('bc', 'betweenness_bin(non-binary matrix)', casew, bcx))
+            bcx = soft(bct.betweenness_bin, 'betweenness_bin(non-binary matrix)', casew)
+            if bcx is not None:
+                self.lines.append('bc_bin ' + enc_mat(L.tolist())); self.pend.append(('bc', 'betweenness_bin(non-binary matrix)', casew, bcx))
             casew = {'fn': 'edge_betweenness_bin(non-binary matrix)', 'G': L.tolist()}
-            rx = self.impl(bct.edge_betweenness_bin, L, 'edge_betweenness_bin(non-binary)', casew)
-            self.lines.append('ebc_bin ' + enc_mat(L.tolist())); self.pend.append(('ebc', 'edge_betweenness_bin(non-binary matrix)', casew, rx))
+            rx = soft(bct.edge_betweenness_bin, 'edge_betweenness_bin(non-binary matrix)', casew)
+            if rx is not None:
+                self.lines.append('ebc_bin ' + enc_mat(L.tolist())); self.pend.append(('ebc', 'edge_betweenness_bin(non-binary matrix)', casew, rx))
             if rx is not None and bin_ebc is not None:
                 ctx.count('ebc_bin_nonbinary_equals_support' if (np.array_equal(rx[0], bin_ebc[0]) and np.array_equal(rx[1], bin_ebc[1])) else 'ebc_bin_nonbinary_DIFFERS_from_support')
 
